@@ -83,11 +83,11 @@ DecDictE(T, i, n) ==
 \* form(depth, path) \in {"short", "long", "same", "auto"} chooses the label form per edge ("same" only when legal).
 LabelBits(s, m, form) ==
   LET n == Len(s)
-      same == n > 0 /\ \A i \in 1..n : s[i] = s[1]
+      same == \A i \in 1..n : s[i] = s[1]            \* an empty label is also expressible as hml_same (n = 0, any v)
       f == IF form = "same" /\ ~same THEN "long" ELSE form
   IN CASE f = "short" -> <<0>> \o [i \in 1..n |-> 1] \o <<0>> \o s
        [] f = "long"  -> <<1, 0>> \o NatToBits(n, BitLenN(m)) \o s
-       [] f = "same"  -> <<1, 1, s[1]>> \o NatToBits(n, BitLenN(m))
+       [] f = "same"  -> <<1, 1, IF n = 0 THEN (m % 2) ELSE s[1]>> \o NatToBits(n, BitLenN(m))
 
 \* longest common prefix of the keys (relative to position `from`+1)
 RECURSIVE Lcp(_, _, _)
